@@ -350,6 +350,10 @@ def ill_formed(rng, T, base):
     out.append(("unknown_element", v))
     v = list(t); v.insert(rng.randint(0, len(t)), rng.choice([399255, 363255, 300255]))
     out.append(("unknown_sequence", v))
+    # a number that is no descriptor: YYY does not fit 8 bits / XX does not fit 6 bits (F XX YYY is a 2+6+8 bit quantity)
+    e = t[0] if gen.F(t[0]) == 0 else 1001
+    v = list(t) + [rng.choice([101256, 101300, 102256, 201256, 206256, 164001]), e, e]
+    out.append(("not_a_descriptor", v))
     return out
 
 
@@ -361,6 +365,8 @@ def python_rejects(T, ed, descs):
         if f["kind"] in ("str", "chars"):
             return dict(str=[32] * (f["width"] // 8), af=0)
         return dict(raw=0, af=0)
+    if any(d < 0 or gen.F(d) > 3 or gen.X(d) > 63 or gen.Y(d) > 255 for d in descs):
+        return True                      # not a descriptor at all
     try:
         gen.walk(T, ed, descs, choose, limit=20000)
         return False
